@@ -315,6 +315,11 @@ func (db *Backend) GetObject(bucketName, objectName string, rangeRequest *gofake
 			return gofakes3.KeyNotFound(objectName)
 		}
 
+		// The value is only valid for the life of the transaction and bson
+		// does not copy byte slices out of its input, so the object must be
+		// decoded from a copy:
+		v = append([]byte(nil), v...)
+
 		if err := bson.Unmarshal(v, &t); err != nil {
 			return fmt.Errorf("gofakes3: could not unmarshal object at %q/%q: %v", bucketName, objectName, err)
 		}
